@@ -182,13 +182,20 @@ func (u *Unit) execInstr(fn *ssa.Function, st *State, ins ssa.Instruction) {
 }
 
 func (u *Unit) elemHeap(elemT types.Type) (string, Sort) {
-	return "HS$" + typeKey(elemT), arrSort(SInt, arrSort(SInt, u.ty.sortOf(elemT)))
+	name := "HS$" + typeKey(elemT)
+	if isPointerLike(elemT) {
+		u.refHeaps[name] = true
+	}
+	return name, arrSort(SInt, arrSort(SInt, u.ty.sortOf(elemT)))
 }
 
 func (u *Unit) mapHeaps(mapT types.Type) (string, Sort, string, Sort) {
 	mt := mapT.Underlying().(*types.Map)
 	k := typeKey(mt)
 	ks, vs := u.ty.sortOf(mt.Key()), u.ty.sortOf(mt.Elem())
+	if isPointerLike(mt.Elem()) {
+		u.refHeaps["HMv$"+k] = true
+	}
 	return "HMd$" + k, arrSort(SInt, arrSort(ks, SBool)), "HMv$" + k, arrSort(SInt, arrSort(ks, vs))
 }
 
